@@ -264,6 +264,9 @@ func c05Run(c *engine.Ctx) {
 			}
 			if nt {
 				c.DistinctN(1)
+				c.Outcome(sub + ": yields values")
+			} else {
+				c.Outcome(sub + ": no value (error, empty or does not compile)")
 			}
 		}
 	}
@@ -321,6 +324,59 @@ func c05Run(c *engine.Ctx) {
 	}
 	c.Sample(map[string]any{"builtin_programs": bi})
 
+	// natives that keep a cache inside the compiled code (compiled regular expressions): the cache key comes from
+	// the input, so every ordered pair of inputs is a history that may poison the second run
+	c.Sub("cache-history")
+	{
+		pats := []string{"a", "A", "^a$", "(", "a.", "(?<n>a)|b"}
+		flags := []any{nil, "", "g", "i", "x", "gx", "ix", "n", "s", "l", "xi", "gi", "m", "gm", "mx"}
+		var cins []any
+		for _, p := range pats {
+			for _, f := range flags {
+				cins = append(cins, []any{"aA\nab", p, f})
+			}
+		}
+		progs := []string{`. as [$s, $p, $f] | $s | test($p; $f)`, `. as [$s, $p, $f] | $s | [match($p; $f) | .offset]`, `. as [$s, $p, $f] | $s | [scan($p; $f)]`,
+			`. as [$s, $p, $f] | $s | sub($p; "_"; $f)`, `. as [$s, $p, $f] | $s | gsub($p; "_"; $f)`, `. as [$s, $p, $f] | $s | [splits($p; $f)]`, `. as [$s, $p, $f] | $s | split($p; $f)`,
+			`. as [$s, $p, $f] | $s | capture($p; $f)`, `. as [$s, $p, $f] | $s | test([$p, $f])`, `. as [$s, $p, $f] | $s | (test($p; $f), test($p))`}
+		hi := 0
+		for _, src := range progs {
+			q, err := gojq.Parse(src)
+			if err != nil {
+				panic(err)
+			}
+			fresh := make([]string, len(cins))
+			for i, in := range cins {
+				fresh[i] = RunCode(MustCompile(src), in, 20000).String()
+			}
+			for i, a := range cins {
+				hi++
+				if !c.MineIdx(hi) || c.Expired() {
+					continue
+				}
+				for j, b := range cins {
+					c.Eval()
+					code, err := gojq.Compile(q)
+					if err != nil {
+						panic(err)
+					}
+					RunCode(code, a, 20000)
+					got := RunCode(code, b, 20000).String()
+					c.DistinctN(1)
+					if strings.Contains(fresh[j], "ERROR") {
+						c.Outcome("second run: error")
+					} else {
+						c.Outcome("second run: values")
+					}
+					if got != fresh[j] {
+						c.Violation(fmt.Sprintf("%s\t%d then %d", src, i, j), "isolation-history", map[string]any{"query": src, "first": c05JSON(a), "second": c05JSON(b), "why": "the second run on the same Code differs from a run on a fresh Code", "fresh": fresh[j], "after": got})
+					}
+				}
+			}
+		}
+		c.Sample(map[string]any{"program": progs[0], "histories": "every ordered pair of 90 inputs [subject, pattern, flags] (valid and invalid flags) on one Code", "oracle": "the second run equals a run on a fresh Code"})
+	}
+
 	c.Sub("corpus")
 	for i, src := range CorpusQueries() {
 		if !c.MineIdx(i) || c.Expired() {
@@ -333,8 +389,20 @@ func c05Run(c *engine.Ctx) {
 	}
 }
 
+func c05JSON(v any) string {
+	b, _ := gojq.Marshal(v)
+	return string(b)
+}
+
 func c05Replay(v *engine.Violation) (bool, string) {
 	src, _ := v.Detail["query"].(string)
+	if v.Kind == "isolation-history" {
+		a, b := univ.FromJSON(v.Detail["first"].(string)), univ.FromJSON(v.Detail["second"].(string))
+		code := MustCompile(src)
+		RunCode(code, a, 20000)
+		got, fresh := RunCode(code, b, 20000).String(), RunCode(MustCompile(src), b, 20000).String()
+		return got != fresh, fmt.Sprintf("fresh: %s\nafter %s: %s", fresh, v.Detail["first"], got)
+	}
 	ii := int(v.Detail["input_index"].(float64))
 	ins := c05Inputs()
 	for rep := 0; rep < 5; rep++ {
@@ -350,7 +418,7 @@ func init() {
 		ID:    "C05",
 		Level: "exploration",
 		Rule: "every derivation (<= 3 nodes, thorough 4) of a mutation-prone grammar (update, delete, add, sort, slice, accumulate, container constants, variables), every builtin of `builtins` applied with a small argument set, and every corpus query x 10 inputs built with aliased substructure, spare capacity with sentinels, json.Number and *big.Int leaves x a fixed set of histories of one *Code (drained x3 on the same input object, fresh equal copy, abandoned after one output + other input + re-run, two live iterators advanced alternately); " +
-			"deep snapshots incl. spare capacity of the input, the variable value, every container constant in the instruction list and every emitted value are compared after every step, and output sequences and Marshal bytes with run 1. A (program, input) pair is non-trivial when the first run emits something.",
+			"deep snapshots incl. spare capacity of the input, the variable value, every container constant in the instruction list and every emitted value are compared after every step, and output sequences and Marshal bytes with run 1. Cache histories: 10 regex programs whose pattern and flags come from the input x every ordered pair of 90 inputs (6 patterns x 15 flag values, valid and invalid) run on one Code, the second run compared with a fresh Code. A (program, input) pair is non-trivial when the first run emits something.",
 		Assume: []string{"Go map iteration order cannot be owned by a harness: dependence on it is only re-sampled (several runs per history), not enumerated", "same-value writes are invisible to snapshots (they are C06's business)"},
 		Run:    c05Run, Replay: c05Replay,
 		QuickBudget: 150 * time.Second, ThoroughBudget: 25 * time.Minute,
